@@ -4,5 +4,6 @@ CONSTANTS
   MaxCrashes = 1
   Protocol = "atomic"
   SignalDeath = "failure"
+  MkdirMode = "idempotent"
 INVARIANT Emit
 CHECK_DEADLOCK FALSE
